@@ -157,7 +157,7 @@ static int disasm_xtensa_le(
           case XTENSA_OP_NUM_NUM:
             at = (opcode >> 4) & 0xf;
             as = (opcode >> 8) & 0xf;
-            snprintf(instruction, length, "%s %d, %d", table_xtensa[n].instr, at, as);
+            snprintf(instruction, length, "%s %d, %d", table_xtensa[n].instr, as, at);
             return 3;
           case XTENSA_OP_CALL_I18:
             i = (opcode >> 6) & 0x03ffff;
@@ -649,7 +649,7 @@ static int disasm_xtensa_be(
           case XTENSA_OP_NUM_NUM:
             at = (opcode >> 16) & 0xf;
             as = (opcode >> 12) & 0xf;
-            snprintf(instruction, length, "%s %d, %d", table_xtensa[n].instr, at, as);
+            snprintf(instruction, length, "%s %d, %d", table_xtensa[n].instr, as, at);
             return 3;
           case XTENSA_OP_CALL_I18:
             i = opcode & 0x03ffff;
